@@ -28,12 +28,14 @@ MIN_NONVACUOUS = {'quick': {'slp.scenario_vectors_feasible': 300, 'slp.value_dec
 def gen_case(rng):
     g = gen.gen_grid(rng, freqs=['h', 'h', '2h', '4h', 'd'], steps=(6, 20))
     spec = gen.gen_lp_portfolio(rng, g=g, types=('contract', 'transport', 'storage', 'storage', 'multi'), n_assets=(1, 4), n_nodes=(1, 3))
-    if rng.random() < 0.2:
-        # a scaled asset (cost vector path of ScaledAsset)
+    if rng.random() < 0.3:
+        # a scaled asset (cost vector path of ScaledAsset), possibly with a window of its own that differs from its base asset's
         f = gen.UNIT_F[g['unit']]
         b = gen.gen_storage(rng, g, 'sc_base', [spec['assets'][0]['nodes'][0]], f, window=False)
         if b['size'] == 0: b['size'] = 5.
-        spec['assets'].append({'type': 'ScaledAsset', 'name': 'sc', 'base': b, 'min_scale': 0., 'max_scale': 2., 'norm_scale': 1., 'fix_costs': gen.r2(0.05 * f), 'wacc': 0.})
+        ws, we, _k = gen.gen_window(rng, g, kinds=['none', 'inside', 'inside', 'straddle_end', 'start_only'])
+        spec['assets'].append({'type': 'ScaledAsset', 'name': 'sc', 'base': b, 'min_scale': 0., 'max_scale': 2., 'norm_scale': 1., 'fix_costs': gen.r2(gen.pick(rng, [0.05, 0.5]) * f), 'wacc': 0.,
+                               'start': ws, 'end': we})
     spec = gen.strip_private(spec)
     T = len(gen.grid_points(g))
     k = int(gen.pick(rng, [0] + list(range(1, T)) * 3))
